@@ -77,6 +77,7 @@ type SpecFunc struct {
 	Ret    string
 	Body   string
 	Where  string
+	Reads  []string // heap parts an uninterpreted spec depends on (passed as extra arguments)
 }
 
 type Axiom struct {
@@ -110,6 +111,7 @@ type Contracts struct {
 
 var reFunc = regexp.MustCompile(`^func\s+(?:\(\s*(\w+)\s+\*?(\w+)\s*\)\s*)?([\w$]+)\s*$`)
 var reSpec = regexp.MustCompile(`^(spec|pred)\s+(\w+)\s*\(([^)]*)\)\s*([^=]*?)\s*(?:=\s*(.*))?$`)
+var reReads = regexp.MustCompile(`\s+reads\s+(.*)$`)
 var reAxiom = regexp.MustCompile(`^axiom\s+(\w+)\s*\(([^)]*)\)\s*:\s*(.*)$`)
 var reGhostField = regexp.MustCompile(`^ghost\s+field\s+(\w+)\.(\w+)\s+(\S+)\s*$`)
 var reFamily = regexp.MustCompile(`^family\s+(\w+)\.(\w+)\.(\w+)\s*\(([^)]*)\)\s*$`)
@@ -233,7 +235,15 @@ func (cs *Contracts) loadFile(repo, file string) error {
 			if m == nil {
 				return fmt.Errorf("%s: bad spec %q", where, l)
 			}
-			sf := &SpecFunc{Name: m[2], Pkg: pkg, Params: parseParams(m[3]), Ret: strings.TrimSpace(m[4]), Body: strings.TrimSpace(m[5]), Where: where}
+			var reads []string
+			if rm := reReads.FindStringSubmatch(l); rm != nil && !strings.Contains(l, "=") {
+				for _, it := range splitTop(rm[1], ',') {
+					reads = append(reads, strings.TrimSpace(it))
+				}
+				l = reReads.ReplaceAllString(l, "")
+				m = reSpec.FindStringSubmatch(l)
+			}
+			sf := &SpecFunc{Name: m[2], Pkg: pkg, Params: parseParams(m[3]), Ret: strings.TrimSpace(m[4]), Body: strings.TrimSpace(m[5]), Where: where, Reads: reads}
 			if m[1] == "pred" {
 				sf.Ret = "bool"
 			}
